@@ -224,6 +224,9 @@ func exec(st *mocktikv.MVCCLevelDB, c string) (res string) {
 	defer func() {
 		if r := recover(); r != nil {
 			res = "panic:" + strings.ReplaceAll(fmt.Sprint(r), "\t", " ")
+			if strings.Contains(res, "pessimistic lock result count not match") {
+				res = "PANIC"
+			}
 		}
 	}()
 	f := strings.Split(c, " ")
@@ -376,6 +379,61 @@ func exec(st *mocktikv.MVCCLevelDB, c string) (res string) {
 		return "K[" + strings.Join(p, ";") + "]"
 	case "gc":
 		return errc(st.GC(kb(pu(f[1])), kb(pu(f[2])), pu(f[3])))
+	case "rcget", "rcbg", "rcsc", "rcrs": // isolation level RC: rcget k ts | rcbg keys ts | rcsc s e limit ts | rcrs s e limit ts
+		rc := kvrpcpb.IsolationLevel_RC
+		switch f[0] {
+		case "rcget":
+			p := st.GetKVPair(kb(pu(f[1])), pu(f[2]), rc, nil)
+			if p.Err != nil {
+				return errc(p.Err)
+			}
+			if p.Value == nil {
+				return "V(-)"
+			}
+			return "V(" + vid(p.Value) + "," + hx(p.CommitTS) + ")"
+		case "rcbg":
+			return pairs(st.BatchGet(keys(f[1]), pu(f[2]), rc, nil))
+		case "rcsc":
+			return pairs(st.Scan(kb(pu(f[1])), kb(pu(f[2])), int(pu(f[3])), pu(f[4]), rc, nil))
+		default:
+			return pairs(st.ReverseScan(kb(pu(f[1])), kb(pu(f[2])), int(pu(f[3])), pu(f[4]), rc, nil))
+		}
+	case "dr":
+		return errc(st.DeleteRange(kb(pu(f[1])), kb(pu(f[2]))))
+	case "ms": // MvccGetByStartTS
+		info, key := st.MvccGetByStartTS(pu(f[1]))
+		var sb strings.Builder
+		sb.WriteString("M(" + kid(key) + ";")
+		if info == nil {
+			return "M(nil)"
+		}
+		if info.Lock == nil {
+			sb.WriteString("-")
+		} else {
+			fmt.Fprintf(&sb, "L(%s,%s,%s,%s)", hx(info.Lock.StartTs), kid(info.Lock.Primary), opc(info.Lock.Type), vid(info.Lock.ShortValue))
+		}
+		sb.WriteString("/")
+		for i, w := range info.Writes {
+			if i > 0 {
+				sb.WriteByte(',')
+			}
+			t := "?"
+			switch w.Type {
+			case kvrpcpb.Op_Put:
+				t = "P"
+			case kvrpcpb.Op_Del:
+				t = "D"
+			case kvrpcpb.Op_Rollback:
+				t = "R"
+			case kvrpcpb.Op_Lock:
+				t = "L"
+			}
+			fmt.Fprintf(&sb, "W(%s,%s,%s,%s)", t, hx(w.StartTs), hx(w.CommitTs), vid(w.ShortValue))
+			if i >= len(info.Values) || info.Values[i].StartTs != w.StartTs || vid(info.Values[i].Value) != vid(w.ShortValue) {
+				sb.WriteString("!values-mismatch")
+			}
+		}
+		return sb.String() + ")"
 	case "get":
 		p := st.GetKVPair(kb(pu(f[1])), pu(f[2]), si, plist(f[3]))
 		if p.Err != nil {
